@@ -64,6 +64,27 @@ pub fn expected_ty(env: &Env, module: &str, t: &Type) -> Option<String> {
     expected_ty_raw(env, module, t).map(|s| crate::emitted::squeeze(&s))
 }
 
+/// The expected type as it has to be WRITTEN inside the module's file by the probe builder:
+/// predefined types by their full path, because the module may define an item of that name.
+pub fn code_ty(env: &Env, module: &str, t: &Type) -> Option<String> {
+    Some(match t {
+        Type::ConstPointer(i) => format!("*const {}", code_ty(env, module, i)?),
+        Type::MutPointer(i) => format!("*mut {}", code_ty(env, module, i)?),
+        Type::Array(i, n) => format!("[{}; {}]", code_ty(env, module, i)?, n),
+        Type::Unknown(n) => format!("[::core::primitive::u8; {n}]"),
+        Type::Ident(id) => match env.bind(module, id.as_str())? {
+            Bound::Builtin(b) => {
+                if b == "void" {
+                    "::std::ffi::c_void".to_string()
+                } else {
+                    format!("::core::primitive::{b}")
+                }
+            }
+            Bound::Item(p) => format!("crate::{p}"),
+        },
+    })
+}
+
 fn expected_ty_raw(env: &Env, module: &str, t: &Type) -> Option<String> {
     Some(match t {
         Type::ConstPointer(i) => format!("*const {}", expected_ty_raw(env, module, i)?),
@@ -963,8 +984,11 @@ impl ExecBuilder {
         if !f.unsafe_ {
             st.bad.push(("C15/extern-accessor-safe".into(), format!("`{mps}::{fname}` is not an unsafe fn"), "C15"));
         }
+        // written with full paths for predefined types: if the accessor's type is the module's own
+        // item of that name instead, the binding below does not type-check (TYPE-ASSERT line)
+        let want_ty = code_ty(env, mps, &ev.type_).unwrap_or(want_ty);
         let body = format!(
-            "        let __sz = ::std::mem::size_of::<{want_ty}>().max(1);\n        let __fill = vec![0x77u8; __sz];\n        if !crate::rt::data({addr:#x}usize, &__fill) {{ crate::rt::note(\"unmappable\", \"\"); return; }}\n        let __r: &'static mut {want_ty} = unsafe {{ {fname}() }};\n        crate::rt::val(\"got\", __r as *mut {want_ty} as usize as u64);\n        crate::rt::val(\"first_byte\", unsafe {{ *(__r as *mut {want_ty} as *const u8) }} as u64);\n"
+            "        let __sz = ::std::mem::size_of::<{want_ty}>().max(1);\n        let __fill = vec![0x77u8; __sz];\n        if !crate::rt::data({addr:#x}usize, &__fill) {{ crate::rt::note(\"unmappable\", \"\"); return; }}\n        let __r: &'static mut {want_ty} = unsafe {{ {fname}() }}; /* TYPE-ASSERT: C15 the type of {fname}() as compiled is the declared type */\n        crate::rt::val(\"got\", __r as *mut {want_ty} as usize as u64);\n        crate::rt::val(\"first_byte\", unsafe {{ *(__r as *mut {want_ty} as *const u8) }} as u64);\n"
         );
         // zero-sized types: reading the first byte is still inside the mapped page
         let step = pc.add_step(mps, true, body);
